@@ -203,5 +203,13 @@ class C19(Oracle):
         run.scratch["c19_lines"] = len(all_events)
         return out
 
+
+    def aborted(self, run, k, exc, closing=False):
+        if not closing:
+            return []
+        # HIVE could not finish writing its outputs: there is no complete log and no summary to reconcile with the state
+        return [V("C19", "outputs_not_written", k, f"closing the run (writing the log and the summary) stopped with {type(exc).__name__}: {exc}",
+                  key=f"C19/outputs_not_written/{type(exc).__name__}")]
+
     def nontrivial(self, run):
         return run.scratch.get("c19_lines", 0) > 0 and self.pickups > 0
